@@ -30,6 +30,13 @@ def units(tier):
     for rem in (False, True):
         us.append(Unit(A.AddToPtrSizeAllPVDs, {'remove': rem, 'npvd': 2}))
     us += [Unit(H.VDRecord, {'vd_type': 1}), Unit(H.VDRecord, {'vd_type': 2}), Unit(H.VDSTRecord), Unit(H.BRRecord)]
+    # whole images judged by the independent ECMA-119 / Joliet / RRIP / UDF readers: volume descriptor set, both-endian copies,
+    # records packed inside sectors and sorted, '.' and '..', path tables in standard order, system use areas, UDF tags
+    from contracts import fidelity as F
+    for s in sorted(F.SCRIPTS_ALL) + F.random_names(tier):
+        us.append(Unit(F.Mastered, {'script': s}))
+    for s in sorted(F.UDF_SCRIPTS) + F.random_udf_names(tier):
+        us.append(Unit(F.MasteredUDF, {'script': s}))
     return us
 
 
@@ -38,6 +45,7 @@ def canaries(tier):
 
 
 META = {}
+OPTS = {'quick': {'unit_timeout_s': 900}, 'thorough': {'unit_timeout_s': 1800}}
 
 META = {
     'assumptions': [
@@ -50,11 +58,11 @@ META = {
         'Rock Ridge system-use content inside records (C08), Joliet/enhanced descriptors beyond the shared VD layout (C09)',
         'ECMA-119 9.3 collation for names without a dot is not claimed: the code documents byte order of the whole identifier, which is what the order lemma pins',
     ],
-    'bounded': ['AddChild: nfiles <= 2 (quick) / 3 (thorough)', 'RecalcWhole: n <= 4 (quick) / 6 (thorough)'],
+    'bounded': ['AddChild: nfiles <= 2 (quick) / 3 (thorough)', 'RecalcWhole: n <= 4 (quick) / 6 (thorough)', 'whole images: 19 + 6 edit scripts and 12 random histories (thorough: 138) decoded by the independent readers'],
 }
 
 MANIFEST = {
-    'level_text': 'Proof (deductive) of the encoders against ECMA-119 layouts written independently of the code: DirectoryRecord.record (every identifier length, with/without XA), PathTableRecord.record_little/big_endian and record_length, PrimaryOrSupplementaryVD.record (PVD and SVD), VolumeDescriptorSetTerminator.record, BootRecord.record; next-fit packing step lemma for _recalculate_extents_and_offsets and the matching step lemma for the writer loop of _write_directory_records (records are written where they were booked, never across a sector boundary); strict total order lemma for DirectoryRecord.__lt__; _add_child keeps directories sorted/packed/duplicate-free with correct . and .. lengths (bounded directory sizes).',
+    'level_text': 'Proof (deductive) of the encoders against ECMA-119 layouts written independently of the code: DirectoryRecord.record (every identifier length, with/without XA), PathTableRecord.record_little/big_endian and record_length, PrimaryOrSupplementaryVD.record (PVD and SVD), VolumeDescriptorSetTerminator.record, BootRecord.record; next-fit packing step lemma for _recalculate_extents_and_offsets and the matching step lemma for the writer loop of _write_directory_records (records are written where they were booked, never across a sector boundary); strict total order lemma for DirectoryRecord.__lt__; _add_child keeps directories sorted/packed/duplicate-free with correct . and .. lengths (bounded directory sizes). Plus whole images (all edit scripts and random edit histories, symbolic contents) judged structurally valid by independent ECMA-119 / Joliet / SUSP-RRIP / ECMA-167 readers.',
     'level_note': 'Trusted: pyvc (+ per-path CPython cross-check, canary), z3, struct model. Class invariants of the record objects are assumed at record() (they are established by _new/parse: partly proved in C05). Not decided: BFS order equivalence / whole-tree reachability (tree induction), path-table numbering across the tree.',
     'design_ref': 'DESIGN.md section 4 C03',
 }
